@@ -12,7 +12,10 @@
    (Pools!ReconcileOK) from every reachable state; Gen_Pools uses it to generate behaviours.      *)
 EXTENDS Pools, Sequences, FiniteSets, Nets
 
-CONSTANTS NameSeq,      \* all pool names, in ascending (Go string) order
+VARIABLE nfail
+
+CONSTANTS MaxFail,      \* how many reconciles with an injected status-write failure a behaviour may contain
+          NameSeq,      \* all pool names, in ascending (Go string) order
           Cidrs,        \* CIDRs pools may take
           BlockSpots,   \* CIDRs of blocks that may exist
           Ties          \* BOOLEAN: may two pools share a creation stamp?
@@ -26,9 +29,12 @@ TabCovers(c, b)  == b \in CovTab[c]
 AllNames == { NameSeq[i] : i \in DOMAIN NameSeq }
 Idx(n) == CHOOSE i \in DOMAIN NameSeq : NameSeq[i] = n
 
+\* (a pool without condition that carries the finalizer was judged active by a pass whose status write failed:
+\*  category 0 - repaired order, hooks/fix-C39-unwritten-active-pool.patch)
 Cat(p) == IF p.cond = "T" /\ ~p.deleting THEN 0
           ELSE IF p.deleting THEN 1
-          ELSE IF p.cond = "F" THEN 2 ELSE 3
+          ELSE IF p.cond = "F" THEN 2
+          ELSE IF p.fin THEN 0 ELSE 3
 
 \* poolSortFunc: n sorts strictly before m
 Before(ps, n, m) ==
@@ -55,12 +61,17 @@ Walk(ps, order, i, st) ==
 
 NewConds(ps) == Walk(ps, Sorted(ps), 1, [trie |-> {}, cond |-> [n \in DOMAIN ps |-> ps[n].cond]]).cond
 
-IReconcileResult(ps, blk) ==
+\* F = pools whose status write fails if attempted.  The finalizer pass acts on the conditions the controller
+\* computed (its local copies), the API server keeps the old condition of a pool whose write failed.
+IReconcileResultF(ps, blk, F) ==
     LET nc == NewConds(ps)
         fin(n) == IF ~ps[n].deleting THEN nc[n] # "F"
                   ELSE ps[n].fin /\ HasBlocks(ps[n], blk)
         keep == { n \in DOMAIN ps : ps[n].deleting => fin(n) }
-    IN [n \in keep |-> [ps[n] EXCEPT !.cond = nc[n], !.fin = fin(n)]]
+    IN [n \in keep |-> [ps[n] EXCEPT !.cond = IF n \in F THEN ps[n].cond ELSE nc[n], !.fin = fin(n)]]
+\* the writes that were attempted and failed (a write is attempted when the condition changes)
+IFailed(ps, F) == { n \in F \cap DOMAIN ps : NewConds(ps)[n] # ps[n].cond }
+IReconcileResult(ps, blk) == IReconcileResultF(ps, blk, {})
 
 \* creation stamps are kept dense (1..k) so that the state space is finite: order is all that matters
 Compress(ps) ==
@@ -72,15 +83,27 @@ ICreate(n, c, dis, tie) ==
     /\ n \notin Names
     /\ tie => (Ties /\ Names # {})
     /\ Create(n, c, dis, IF tie THEN MaxStamp(pools) ELSE MaxStamp(pools) + 1)
-ISetDisabled(n, v) == SetDisabled(n, v)
+    /\ UNCHANGED nfail
+ISetDisabled(n, v) == SetDisabled(n, v) /\ UNCHANGED nfail
 IDelete(n) ==
     /\ n \in Names /\ ~pools[n].deleting
     /\ pools' = Compress(IF pools[n].fin THEN [pools EXCEPT ![n].deleting = TRUE] ELSE Drop(pools, n))
-    /\ UNCHANGED blocks
-IBlockAppears(b) == BlockAppears(b)
-IBlockVanishes(b) == BlockVanishes(b)
+    /\ unsettled' = unsettled \cap DOMAIN pools'
+    /\ UNCHANGED <<blocks, nfail>>
+IBlockAppears(b) == BlockAppears(b) /\ UNCHANGED nfail
+IBlockVanishes(b) == BlockVanishes(b) /\ UNCHANGED nfail
+IInit == Init /\ nfail = 0
 IReconcile ==
     /\ pools' = Compress(IReconcileResult(pools, blocks))
+    /\ unsettled' = {}
+    /\ UNCHANGED <<blocks, nfail>>
+\* a pass in which the status write of pool f is rejected (only passes that really attempt that write)
+IReconcileFail(f) ==
+    /\ nfail < MaxFail
+    /\ IFailed(pools, {f}) = {f}
+    /\ pools' = Compress(IReconcileResultF(pools, blocks, {f}))
+    /\ unsettled' = {f} \cap DOMAIN pools'
+    /\ nfail' = nfail + 1
     /\ UNCHANGED blocks
 
 INext ==
@@ -89,18 +112,23 @@ INext ==
     \/ \E n \in AllNames : IDelete(n)
     \/ \E b \in BlockSpots : IBlockAppears(b) \/ IBlockVanishes(b)
     \/ IReconcile
+    \/ \E f \in AllNames : IReconcileFail(f)
 
 \* ---- what TLC checks --------------------------------------------------------------------------------
 \* from every reachable state, the design's Reconcile is one the property layer accepts
 RefinesP == ReconcileOK(pools, blocks, IReconcileResult(pools, blocks))
+\* ... and so is a pass in which one status write is rejected
+RefinesPF == \A f \in Names : IFailed(pools, {f}) = {f} =>
+                 ReconcileFailOK(pools, blocks, IReconcileResultF(pools, blocks, {f}), {f})
 \* and it is idempotent (a second pass on its own result changes nothing)
 Idempotent == LET r == IReconcileResult(pools, blocks) IN
               DOMAIN r = Names => IReconcileResult(r, blocks) = r
 \* pools marked Allocatable=True never overlap, reconciled or not (the environment cannot set it)
 TrueNeverOverlaps ==
+    nfail = 0 =>        \* (a rejected status write can leave a stale True on a pool that was disabled meanwhile)
     \A m, n \in Names : (m # n /\ pools[m].cond = "T" /\ pools[n].cond = "T") => ~Overlap(pools[m], pools[n])
 TypeOK ==
-    /\ Names \subseteq AllNames /\ blocks \subseteq BlockSpots /\ ApiInv
+    /\ Names \subseteq AllNames /\ blocks \subseteq BlockSpots /\ ApiInv /\ unsettled \subseteq Names
     /\ \A n \in Names : pools[n].cidr \in Cidrs /\ pools[n].cond \in Conds
 
 \* ---- model values for the cfg files (a laminar family: A > B > D, A > C, E apart; G is IPv6) ----------
